@@ -972,6 +972,10 @@ def gen_C08(rng, count, tier):
             own = _os.path.join(_os.path.dirname(FSBASE), "rw", "%d-%s-%d-%d" % (_os.getpid(), tier, i, rng.randrange(10**6)))
             hdr = pick(rng, ["", "\r\nRange: bytes=10-45", "\r\nRange: bytes=-5", "\r\nRange: bytes=49-", "\r\nRange: bytes=0-49", "\r\nRange: bytes=45-60"])
             req = ("GET /f.bin HTTP/1.1%s\r\n\r\n" % hdr).encode()
+            if rng.random() < 0.4:
+                # ... or listed the directory before, when it held an entry more / an entry less
+                yield ("fs", "root:%s mkroot warmls:%d %s" % (hx(own.encode()), rng.randrange(2), fs_events(b"GET / HTTP/1.1\r\n\r\n")))
+                continue
             yield ("fs", "root:%s mkroot warmrw:%d %s" % (hx(own.encode()), pick(rng, [0, 7, 30, 49, 51, 80, 70000]), fs_events(req)))
             continue
         name, size = pick(rng, files) if rng.random() < 0.9 else (pick(rng, ["", "sub", "sub/"]), 0)
